@@ -66,7 +66,11 @@ func (x *Exec) builtin(st *State, b *ssa.Builtin, com *ssa.CallCommon, args []Va
 				return []Value{StrLen(a)}
 			}
 			if strings.HasPrefix(a.Sort, "Sl_") {
-				return []Value{slLen(a)}
+				n := slLen(a)
+				if n.Kind != KInt {
+					st.assume(Cmp(">=", n, IntT(0))) // Go invariant of every slice value
+				}
+				return []Value{n}
 			}
 			if _, ok := com.Args[0].Type().Underlying().(*types.Map); ok {
 				r := x.freshVar("maplen", "Int")
@@ -171,7 +175,7 @@ func (x *Exec) callStatic(st *State, fn *ssa.Function, args []Value, binds []Val
 			return
 		}
 	}
-	if len(st.frames) >= maxInlineDepth+1 || x.onStack(st, fn) || w.isRecursive(fn) {
+	if len(st.frames) >= maxInlineDepth+1 || x.onStack(st, fn) || w.isRecursive(fn) || w.isModular(fn) {
 		// cannot inline further: havoc with the callee's static frame
 		if x.pureMode {
 			x.pureFail = "recursion/inlining depth at " + key
@@ -297,8 +301,7 @@ func (x *Exec) havocCellFields(st *State, p *PtrV, fields map[string]bool, why s
 	sub := x.descend(cur, p.path)
 	t, isT := sub.(*Term)
 	if !isT {
-		x.outside = "havoc of engine-level cell"
-		return
+		return // function-valued or engine-level cell: not data, left unchanged
 	}
 	var nv *Term
 	d := x.w.dts[t.Sort]
@@ -772,4 +775,25 @@ func (x *Exec) doNext(st *State, in *ssa.Next) {
 	i := x.freshVar("next_i", "Int")
 	st.assume(Implies(okv, And(Cmp(">=", i, IntT(0)), Cmp("<", i, StrLen(s)))))
 	fr.env[in] = &TupleV{vals: []Value{okv, i, x.freshVar("next_r", "Int")}}
+}
+
+// isModular: functions that are always treated modularly (never inlined), even
+// without a contract: the parser's and the transpiler's evaluate* family.
+func (w *World) isModular(fn *ssa.Function) bool {
+	key := funcKey(fn)
+	if fc := w.contracts[key]; fc != nil {
+		if fc.Flags["inline"] {
+			return false
+		}
+		if fc.Flags["modular"] {
+			return true
+		}
+	}
+	if strings.HasPrefix(key, "parser.(*Parser).evaluate") || strings.HasPrefix(key, "transpiler.(*transpiler).evaluate") {
+		return !strings.Contains(key, "$")
+	}
+	if key == "parser.(*Parser).parse" || key == "lexer.Tokenize" || key == "parser.(*Parser).getUsedFuncs" || key == "parser.(*Parser).cleanProgram" {
+		return true
+	}
+	return false
 }
